@@ -84,7 +84,8 @@ def transformedFeats {α : Type} [Add α] [Mul α] (F : FeatOps α)
 /-- `TransformedOracle(underlying, X, Y, Z)` with its three coordinate evaluators:
     * `evalPoint/evalArray`: evaluate X, Y, Z at the point, `underlying->set(...)`, forward;
     * `evalInterval`: evaluate the three coordinate ranges, pass the *bounds* of the ranges as the
-      underlying oracle's box (the ranges' maybe-NaN flags are not looked at), forward;
+      underlying oracle's box, forward; the result is flagged maybe-NaN when any coordinate range
+      is (fix dde738c; before it the ranges' flags were dropped);
     * `evalDerivs/evalDerivArray`: `Jacobian * underlying gradient` at the transformed point;
     * `evalFeatures`: compatible triples of coordinate features × underlying features. -/
 def transformed {α : Type} [Add α] [Mul α] (F : FeatOps α) (u X Y Z : OracleI α) : OracleI α where
@@ -93,7 +94,8 @@ def transformed {α : Type} [Add α] [Mul α] (F : FeatOps α) (u X Y Z : Oracle
     let xr := X.interval lo hi
     let yr := Y.interval lo hi
     let zr := Z.interval lo hi
-    u.interval ⟨xr.lo, yr.lo, zr.lo⟩ ⟨xr.hi, yr.hi, zr.hi⟩
+    let r := u.interval ⟨xr.lo, yr.lo, zr.lo⟩ ⟨xr.hi, yr.hi, zr.hi⟩
+    ⟨r.lo, r.hi, r.nan || xr.nan || yr.nan || zr.nan⟩
   grad p := jmul (X.grad p) (Y.grad p) (Z.grad p) (u.grad (tpoint X Y Z p))
   feats p := transformedFeats F (X.feats p) (Y.feats p) (Z.feats p) (u.feats (tpoint X Y Z p))
 
@@ -149,7 +151,8 @@ def ivl : Expr α → V3 α → V3 α → Ivl α
     let xr := ivl X lo hi
     let yr := ivl Y lo hi
     let zr := ivl Z lo hi
-    (Γ k).interval ⟨xr.lo, yr.lo, zr.lo⟩ ⟨xr.hi, yr.hi, zr.hi⟩
+    let r := (Γ k).interval ⟨xr.lo, yr.lo, zr.lo⟩ ⟨xr.hi, yr.hi, zr.hi⟩
+    ⟨r.lo, r.hi, r.nan || xr.nan || yr.nan || zr.nan⟩
 
 /-- forward-mode gradient (`DerivArrayEvaluator`) -/
 def gradE [Add α] [Mul α] : Expr α → V3 α → V3 α
